@@ -134,6 +134,26 @@ theorem C06_cex_yearly_after :
     now < midnight (daysFromCivil 2025 3 1) + 10 * usHour := by
   refine ⟨by decide, ⟨2025, by decide, rfl⟩, by decide⟩
 
+/-- finding C06-F10: `once(2/29 8:00)` asked on 31 December 2023 raises (`datetime(2023, 2, 29)` does not exist) although
+29 February 2024 08:00 is denoted; in a list the exception takes the other entries with it. -/
+theorem C06_cex_feb29_common_year :
+    let P : Params := ⟨C07.Params.trivial, fun a p => a / p, fun _ t => t + 1, fun _ => 0⟩
+    let now : Int := 1704063540000000
+    timerNext1 TFlags.current P (.once (.at (.monthDay 2 29) (.hms 8 0 0) 0)) now 0 = none ∧
+    timerNext TFlags.current P [.once (.at .none .noon 0), .once (.at (.monthDay 2 29) (.hms 8 0 0) 0)] now 0 = none ∧
+    Spec.yearly 2 29 (8 * usHour) (midnight (daysFromCivil 2024 2 29) + 8 * usHour) ∧
+    now < midnight (daysFromCivil 2024 2 29) + 8 * usHour := by
+  refine ⟨by decide, by decide, ⟨2024, by decide, rfl⟩, by decide⟩
+
+/-- finding C06-F9: a crontab day that never exists (`cron(0 0 30 2 *)`): croniter's iterator raises instead of advancing (here:
+`cronNext id t = t`), `cronLoop` never gets a positive distance and the whole list raises – although its other entry, alone,
+announces today's noon. -/
+theorem C06_cex_cron_impossible_day :
+    let P : Params := ⟨C07.Params.trivial, fun a p => a / p, fun _ t => t, fun _ => 0⟩
+    timerNext TFlags.current P [.cron 0, .once (.at .none .noon 0)] wMon1000 0 = none ∧
+    timerNext TFlags.current P [.once (.at .none .noon 0)] wMon1000 0 = some ⟨some 1717416000000000, some 1717416000000000⟩ := by
+  refine ⟨by decide, by decide⟩
+
 /-- finding C06-F3: `once(10:00)` whose trigger was started at exactly 10:00:00.000000 – asked five seconds later it answers
 `none` (the `this_t != startup_time` test suppresses the day offset), although tomorrow 10:00 is denoted. -/
 theorem C06_cex_startup_coincidence :
@@ -142,6 +162,17 @@ theorem C06_cex_startup_coincidence :
     timerNext1 TFlags.current P (.once (.at .none (.hms 10 0 0) 0)) (st + 5000000) st = some none ∧
     Spec.daily (10 * usHour) (st + usDay) := by
   refine ⟨by decide, ⟨dayOf 1709287200000000 + 1, by decide⟩⟩
+
+/-- finding C06-F3 through an offset that crosses midnight: `once(midnight - 12 hour)` started on 2024-10-07 at 12:00:00.000000 –
+the next morning (06:00) the first parse, today's midnight − 12 h, IS the start-up time, the day-offset re-parse is suppressed and
+the answer is `none`, although today's noon is denoted and still ahead; asked at start-up the same instant was announced. -/
+theorem C06_cex_startup_coincidence_offset :
+    let P : Params := ⟨C07.Params.trivial, fun a p => a / p, fun _ t => t + 1, fun _ => 0⟩
+    let st : Int := 1728302400000000
+    timerNext1 TFlags.current P (.once (.at .none .midnight (-12 * usHour))) (st + 18 * usHour) st = some none ∧
+    timerNext1 TFlags.current P (.once (.at .none .midnight (-12 * usHour))) st st = some (some (st + usDay)) ∧
+    Spec.daily (-12 * usHour) (st + usDay) ∧ st + 18 * usHour < st + usDay := by
+  refine ⟨by decide, by decide, ⟨dayOf 1728302400000000 + 2, by decide⟩, by decide⟩
 
 /-! ## period -/
 
